@@ -152,6 +152,9 @@ def check_roundtrips(res, spec, only_chain=None):
         res.trans()
         case = {"part": "rt", "spec": spec, "chain": [t]}
         kw = dict(cls=c, step=t, depth=1, pk=pkind(spec), n_children=len(W.children_specs(spec)))
+        if r[0] == "exc" and t == "dictcr" and lib.is_documented_exc(r[2]):
+            res.note("rt", f"{c}:{t}:refused")  # the library documents that it refuses to mix chunk-relative intervals with an exported parent
+            continue
         if r[0] == "exc":
             res.note("rt", f"{c}:{t}:raises:{r[1]}")
             res.deviation("roundtrip", case, {"exc": r[1], "msg": str(r[2])[:240]}, "successor equal to origin",
@@ -625,12 +628,33 @@ def m_live_dump(d):
     return d.get("n_children", 0) > 0
 
 
+def m_chunk_relative_dict_tuples(d):
+    """chunk-relative dictionary export hands out coordinate TUPLES where the chromosome export hands out lists; an object
+    re-imported from it stores the tuples, so its own dictionary (and `==`) differ from the origin's in the container type only"""
+    if d.get("step") != "dictcr" or not isinstance(d.get("observed"), dict):
+        return False
+    diffs = d["observed"].get("diff") or []
+    if not diffs:
+        return False
+    for path, a, b, _cls in diffs:
+        if not path.rsplit("/", 1)[-1] in ("interval_starts", "interval_ends", "exon_starts", "exon_ends", "cds_starts", "cds_ends"):
+            return False
+        try:
+            la, lb = json.loads(a), json.loads(b)
+        except Exception:
+            return False
+        if not (isinstance(lb, list) and lb[:1] == ["tuple"] and lb[1:] == la):
+            return False
+    return True
+
+
 def m_digest_concatenation(d):
     """two contents whose differing neighbouring fields spell the same text when written one after the other"""
     return d["sig"].startswith("twins-same-guid:") and d.get("same_concatenated_text") is True
 
 
 MATCHERS = {
+    "c08_chunk_relative_dict_tuples": m_chunk_relative_dict_tuples,
     "c08_digest_concatenation": m_digest_concatenation,
     "c08_pickle_interval": m_pickle_interval,
     "c08_ac_disjoint_chunk": m_ac_disjoint_chunk,
